@@ -62,6 +62,41 @@ def tensor_enum() -> dict:
     return out
 
 
+ALIASES = [  # (spelling evaluated with numpy as np, canonical model dtype)
+    ("int", "int64"), ("float", "float64"), ("bool", "bool"), ("str", "str"), ("np.longlong", "int64"), ("np.intc", "int32"),
+    ("np.short", "int16"), ("np.byte", "int8"), ("np.ubyte", "uint8"), ("np.ushort", "uint16"), ("np.uintc", "uint32"),
+    ("np.ulonglong", "uint64"), ("np.half", "float16"), ("np.single", "float32"), ("np.double", "float64"),
+    ("np.csingle", "complex64"), ("np.cdouble", "complex128"), ("np.bool_", "bool"), ("np.str_", "str"),
+    ("'i8'", "int64"), ("'>i4'", "int32"), ("'<f4'", "float32"), ("'>f8'", "float64"), ("'U3'", "str"), ("'<U1'", "str"),
+    ("'?'", "bool"), ("'e'", "float16"), ("np.dtype('>u2')", "uint16"), ("np.zeros(1, np.int8).dtype", "int8"),
+    ("np.float32(1).dtype", "float32"), ("np.int_", "int64"), ("np.uint", "uint64"),
+]
+
+
+def reverse_enum() -> dict:
+    """`tensor_type_to_dtype(e)` executed for e = 0..31: the model dtype name, 'other' (a numpy dtype outside the 16 of
+    the statement: float8 / int4 / float4 ...), or 'raises'.  And `dtype_to_tensor_type` on alias spellings."""
+    import numpy as np
+
+    from spox._utils import dtype_to_tensor_type, tensor_type_to_dtype
+
+    names = {np_dtype(d): d for d in DTYPES}
+    rev = {}
+    for e in range(32):
+        try:
+            dt = np.dtype(tensor_type_to_dtype(e))
+            rev[e] = names.get(dt, "other") if dt != np.dtype(object) else "other"
+        except Exception:  # noqa: BLE001
+            rev[e] = "raises"
+    aliases = []
+    for spelling, canon in ALIASES:
+        try:
+            aliases.append((spelling, canon, int(dtype_to_tensor_type(eval(spelling, {"np": np})))))  # noqa: S307
+        except Exception:  # noqa: BLE001
+            aliases.append((spelling, canon, 0))
+    return {"rev": rev, "aliases": aliases}
+
+
 def emit_tensor_enum(tab: dict) -> str:
     ls = [
         HEADER.format(src="src/spox/_utils.py", tool="translator/c10_tables.py").rstrip("\n"),
@@ -79,6 +114,20 @@ def emit_tensor_enum(tab: dict) -> str:
         "def fieldOf : DType → Field",
     ]
     ls += [f"  | .{d} => .{FIELDS.get(tab[d]['field'], 'none')}" for d in DTYPES]
+    rv = tab.get("_reverse") or {"rev": {}, "aliases": [("<not run>", "bool", 0)]}
+    ls += [
+        "",
+        "/-- `spox._utils.tensor_type_to_dtype(e)` as executed on this run for e = 0..31 (`none`: raised, or a numpy",
+        "    element type outside the 16 of the statement - those enums are listed in `otherEnums`). -/",
+        "def dtypeOfEnum : Nat → Option DType",
+    ]
+    ls += [f"  | {e} => some .{d}" for e, d in sorted(rv["rev"].items()) if d in DTYPES]
+    ls += ["  | _ => none", "",
+           f"def otherEnums : List Nat := {lean_list([str(e) for e, d in sorted(rv['rev'].items()) if d == 'other'])}", "",
+           "/-- `dtype_to_tensor_type(<spelling>)` as executed on this run: aliases, byte orders, string widths, Python",
+           "    builtins (spelling, canonical element type, enum; 0 = raised). -/",
+           "def aliases : List (String × DType × Nat) := [",
+           ",\n".join(f"  ({lean_str(a)}, .{c}, {e})" for a, c, e in rv["aliases"]), "]"]
     ls += ["", "end Generated.TensorEnum", ""]
     return "\n".join(ls)
 
@@ -724,7 +773,12 @@ def generate() -> dict:
     except Exception as e:  # noqa: BLE001
         errors["TensorEnum"] = f"{type(e).__name__}: {e}"[:300]
         te = {d: {"enum": 0, "field": "none"} for d in DTYPES}
+    try:
+        te["_reverse"] = reverse_enum()
+    except Exception as e:  # noqa: BLE001
+        errors["TensorEnum(reverse)"] = f"{type(e).__name__}: {e}"[:300]
     write_if_changed(GEN / "TensorEnum.lean", emit_tensor_enum(te))
+    te.pop("_reverse", None)
     try:
         ak = attr_kinds()
     except Exception as e:  # noqa: BLE001
